@@ -33,6 +33,7 @@ Act == CASE E.ev = "addpar" -> AddPar(E.n, E.v, E.vary, E.cv, E.st)
          [] E.ev = "get_variable_list" -> GetVariableList
          [] E.ev = "get_parameters" -> GetParameters
          [] E.ev = "read_par_file" -> ReadParFile
+         [] E.ev = "fork" -> Fork(E.n, E.v)
 (* bind every logged field of the projected state *)
 PostMatches == /\ pars' = P.pars /\ varylist' = P.varylist /\ variable_list' = P.variable_list
                /\ stepsizes' = P.stepsizes /\ other' = P.other /\ ret' = P.ret
